@@ -1,16 +1,365 @@
 import SqlgrepModel.Model.Exec
 /-
 Executable SPECIFICATION of aggregate queries (property C04), written from the property sentence:
-group the rows that pass WHERE by key, one output row per distinct key in ascending order, every cell
-computed from exactly the rows of its group. `batch` returns the spec's answer for a whole batch run, or
-`none` where the specification does not fix the outcome (errors, oracle gaps).
+
+  group the rows that pass WHERE by key; one output row per distinct key, keys ascending by the value order
+  with NULL first; per group the sub-list of its rows in arrival order; every cell a function of that
+  sub-list alone (`aggregate`); HAVING per group; DISTINCT per table; LIMIT = the first n rows.
+
+Nothing here keeps running state: every cell is computed from the complete list of its group's rows.
+`batch` returns the spec's answer for a whole batch run, or `none` where the property sentence does not fix
+the outcome:
+  * any evaluation error (WHERE, key, argument, transform, HAVING), an integer overflow of a partial sum,
+    a non-numeric SUM/AVG/STDDEV argument, a non-BOOLEAN BOOL_AND argument, a non-TEXT STRING_AGG argument;
+  * arguments of more than one type in one group (cannot arise for a typed column; for MIN/MAX/PERCENTILE the
+    "value order of the argument's type" is then undefined — the derived cross-type order is finding D45);
+  * group keys that are REAL or arrays (keys that are equal in the value order but print differently,
+    `0.0`/`-0.0`: which of them is shown is not fixed);
+  * a REAL sum whose first addend `y` has `0.0 + y ≠ y` (only `-0.0`: the sign of a zero sum is not fixed);
+  * PERCENTILE with p outside [0, 1]; joins (C05) and unreadable lines (C12).
+Where the sentence is silent but an answer is needed the code is mirrored, and said so at the definition:
+AVG of INTs truncates, the first of several equal extremes is shown by MIN/MAX, STRING_AGG starts at the first
+non-empty text, the element type of ARRAY_AGG is the type of its first element.
 -/
 namespace Sqlgrep.Spec.Agg
 open Sqlgrep
 
+def okOf {α : Type} : Outcome α → Option α
+  | .ok a => some a
+  | _ => none
+
+/-- all answers, or `none` if one is missing -/
+def collect {α : Type} : List (Option α) → Option (List α)
+  | [] => some []
+  | none :: _ => none
+  | some a :: rest => (collect rest).map (a :: ·)
+
+/-! ### rows and groups -/
+
+/-- WHERE on one row (`none`: evaluation fails) -/
+def passes (O : Oracles) (q : AggStmt) (env : Env) : Option Bool :=
+  match q.filter with
+  | none => some true
+  | some f => (okOf (eval O env f)).map (·.truthy)
+
+/-- GROUP BY key of one row; a statement without GROUP BY has the single key `[NULL]` -/
+def keyOf (O : Oracles) (q : AggStmt) (env : Env) : Option (List Value) :=
+  match q.groupBy with
+  | none => some [.null]
+  | some parts => okOf (evalList O env (parts.map (·.1)))
+
+/-- the rows that pass WHERE, each with its key, in arrival order -/
+def keyedRows (O : Oracles) (q : AggStmt) : List Env → Option (List (List Value × Env))
+  | [] => some []
+  | env :: rest =>
+    match passes O q env with
+    | none => none
+    | some false => keyedRows O q rest
+    | some true =>
+      match keyOf O q env, keyedRows O q rest with
+      | some k, some more => some ((k, env) :: more)
+      | _, _ => none
+
+def sameKey (a b : List Value) : Bool := Value.cmpList a b == .eq
+
+/-- insertion into an ascending duplicate-free key list (an equal key is already represented) -/
+def insertKey (k : List Value) : List (List Value) → List (List Value)
+  | [] => [k]
+  | x :: xs =>
+    match Value.cmpList k x with
+    | .lt => k :: x :: xs
+    | .eq => x :: xs
+    | .gt => x :: insertKey k xs
+
+/-- the distinct keys in ascending order of the value order (NULL first: `Value.null` has the lowest rank) -/
+def distinctKeys (ks : List (List Value)) : List (List Value) := ks.foldl (fun acc k => insertKey k acc) []
+
+/-- the rows of group `k`, in arrival order -/
+def rowsOfKey (k : List Value) (rows : List (List Value × Env)) : List Env :=
+  (rows.filter (fun r => sameKey r.1 k)).map (·.2)
+
+def groups (rows : List (List Value × Env)) : List (List Value × List Env) :=
+  (distinctKeys (rows.map (·.1))).map (fun k => (k, rowsOfKey k rows))
+
+/-- key values for which "equal in the value order" is "identical" (no REAL, no array) -/
+def simpleValue : Value → Bool
+  | .real _ => false
+  | .array _ _ => false
+  | _ => true
+
+/-! ### the argument of an aggregate on one row -/
+
+/-- value of the aggregate's argument on a row (`COUNT(*)` and key columns have none: NULL stands in) -/
+def argument (O : Oracles) (q : AggStmt) (env : Env) : AggKind → Outcome Value
+  | .groupKey _ canon => do
+    validateGroupKey q canon
+    pure .null
+  | .count none distinct => if distinct then .error .distinctRequiresColumn else .ok .null
+  | .count (some c) _ => Outcome.ofOption .columnNotFound (env.get .table c)
+  | .min e | .max e | .sum e | .avg e | .stddev e _ | .percentile e _ | .boolAnd e | .boolOr e
+  | .arrayAgg e | .stringAgg e _ => eval O env e
+
+def arguments (O : Oracles) (q : AggStmt) (k : AggKind) (g : List Env) : Option (List Value) :=
+  collect (g.map (fun env => okOf (argument O q env k)))
+
+/-! ### aggregates as functions of the list of argument values (arrival order, NULLs included) -/
+
+def nonNull (vs : List Value) : List Value := vs.filter (fun v => !v.isNull)
+
+def asInt : Value → Option Int
+  | .int i => some i
+  | _ => none
+def asReal : Value → Option Nat
+  | .real b => some b
+  | _ => none
+def asInterval : Value → Option Int
+  | .interval n => some n
+  | _ => none
+def asBool : Value → Option Bool
+  | .bool b => some b
+  | _ => none
+def asText : Value → Option Bytes
+  | .text s => some s
+  | _ => none
+
+def ints (vs : List Value) : Option (List Int) := collect (vs.map asInt)
+def reals (vs : List Value) : Option (List Nat) := collect (vs.map asReal)
+def intervals (vs : List Value) : Option (List Int) := collect (vs.map asInterval)
+def bools (vs : List Value) : Option (List Bool) := collect (vs.map asBool)
+def texts (vs : List Value) : Option (List Bytes) := collect (vs.map asText)
+
+def intSum (xs : List Int) : Int := xs.foldl (· + ·) 0
+/-- every partial sum `acc + x₁ + … + xᵢ` (i ≥ 1) satisfies `ok` -/
+def partialSumsOk (ok : Int → Bool) : Int → List Int → Bool
+  | _, [] => true
+  | acc, x :: xs => ok (acc + x) && partialSumsOk ok (acc + x) xs
+
+def realSum (xs : List Nat) : Nat := xs.foldl F64.add F64.zero
+/-- `0.0 + y = y` for the first addend (false only for `-0.0`): the running sum may start at `0.0` or at `y` -/
+def zeroNeutral : List Nat → Bool
+  | [] => true
+  | y :: _ => F64.add F64.zero y == y
+
+def sameType : List Value → Bool
+  | [] => true
+  | v :: rest => rest.all (fun w => w.valueType == v.valueType)
+
+/-- distinct values by value equality: the first occurrence of each -/
+def firstOccs : List Value → List Value
+  | [] => []
+  | v :: vs => v :: (firstOccs vs).filter (fun x => !Value.beq v x)
+
+/-- the extreme of a non-empty list by the value order; of several equal extremes the first (as in the code) -/
+def extreme (wantLess : Bool) : List Value → Value
+  | [] => .null
+  | x :: rest => rest.foldl (fun cur v =>
+      if Value.cmp v cur == (if wantLess then Ordering.lt else Ordering.gt) then v else cur) x
+
+def f64One : Nat := 0x3ff0000000000000
+def unitInterval (p : Nat) : Bool := !F64.isNaN p && F64.cmp F64.zero p != .gt && F64.cmp p f64One != .gt
+
+/-- SUM over the non-NULL values -/
+def sumOf (xs : List Value) : Option Value :=
+  match xs with
+  | [] => some .null
+  | _ =>
+    match ints xs, reals xs, intervals xs with
+    | some is, _, _ => if partialSumsOk inI64 0 is then some (.int (intSum is)) else none
+    | _, some rs, _ => if zeroNeutral rs then some (.real (realSum rs)) else none
+    | _, _, some ns => if partialSumsOk inIv 0 ns then some (.interval (intSum ns)) else none
+    | _, _, _ => none
+
+/-- AVG over the non-NULL values; the INT (and INTERVAL) average truncates towards zero, as in the code -/
+def avgOf (xs : List Value) : Option Value :=
+  match xs with
+  | [] => some .null
+  | _ =>
+    match ints xs, reals xs, intervals xs with
+    | some is, _, _ => if partialSumsOk inI64 0 is then some (.int (Int.tdiv (intSum is) is.length)) else none
+    | _, some rs, _ => if zeroNeutral rs then some (.real (F64.div (realSum rs) (F64.ofInt rs.length))) else none
+    | _, _, some ns => if partialSumsOk inIv 0 ns then some (.interval (Int.tdiv (intSum ns) ns.length)) else none
+    | _, _, _ => none
+
+/-- STDDEV / VARIANCE (population) from Σx, Σx² and n, in REAL arithmetic as the code does it -/
+def stddevOf (isVariance : Bool) (xs : List Value) : Option Value :=
+  match xs with
+  | [] => some .null
+  | _ =>
+    match ints xs, reals xs with
+    | some is, _ =>
+      let sq := is.map (fun x => x * x)
+      if sq.all inI64 && partialSumsOk inI64 0 is && partialSumsOk inI64 0 sq then
+        some (.real (stddevCalc is.length isVariance (F64.ofInt (intSum is)) (F64.ofInt (intSum sq))))
+      else none
+    | _, some rs =>
+      let sq := rs.map (fun x => F64.mul x x)
+      if zeroNeutral rs && zeroNeutral sq then some (.real (stddevCalc rs.length isVariance (realSum rs) (realSum sq)))
+      else none
+    | _, _ => none
+
+/-- PERCENTILE(p): the element at index `min(⌊p·n⌋, n−1)` of the ascending non-NULL values -/
+def percentileOf (p : Nat) (xs : List Value) : Option Value :=
+  if !unitInterval p || !sameType xs then none
+  else
+    let sorted := sortValues xs
+    let n := sorted.length
+    some ((sorted[min (f64ToNat (F64.mul p (F64.ofInt n))) (n - 1)]?).getD .null)
+
+/-- STRING_AGG: the texts joined by the delimiter, starting at the first non-empty text (as in the code) -/
+def joinTexts (delim : Bytes) : List Bytes → Bytes
+  | [] => []
+  | [s] => s
+  | s :: rest => s ++ delim ++ joinTexts delim rest
+
+/-- the value of an aggregate over the argument values `vs` of its group's rows; `none` = not fixed -/
+def aggregate (k : AggKind) (vs : List Value) : Option Value :=
+  match k with
+  | .groupKey _ _ => none
+  | .count none distinct => if distinct then none else some (.int vs.length)
+  | .count (some _) false => some (.int (nonNull vs).length)
+  | .count (some _) true => some (.int (firstOccs (nonNull vs)).length)
+  | .sum _ => sumOf (nonNull vs)
+  | .avg _ => avgOf (nonNull vs)
+  | .stddev _ isVariance => stddevOf isVariance (nonNull vs)
+  | .min _ => if sameType (nonNull vs) then some (extreme true (nonNull vs)) else none
+  | .max _ => if sameType (nonNull vs) then some (extreme false (nonNull vs)) else none
+  | .percentile _ p => percentileOf p (nonNull vs)
+  | .boolAnd _ => (bools (nonNull vs)).map (fun bs => if bs.isEmpty then .null else .bool (bs.all id))
+  | .boolOr _ => (bools (nonNull vs)).map (fun bs => if bs.isEmpty then .null else .bool (bs.any id))
+  | .arrayAgg _ =>
+    -- all values in arrival order; the element type is that of the first non-NULL value
+    if !sameType (nonNull vs) then none
+    else match (nonNull vs).head?.bind Value.valueType with
+      | some t => some (.array t vs)
+      | none => some (.array .int vs)
+  | .stringAgg _ delim =>
+    (texts (nonNull vs)).map (fun ss => if ss.isEmpty then .null else .text (joinTexts delim (ss.dropWhile (·.isEmpty))))
+
+/-! ### the result table -/
+
+/-- `$name → value` bindings of the GROUP BY parts for HAVING (name resolution as in the engine: a part is named
+by its canonical text) -/
+def keyBindings (q : AggStmt) (key : List Value) : List (String × Value) :=
+  ((keyMapping q).filterMap (fun (c, i) => (key[i]?).map (fun v => (c, v)))).reverse
+
+/-- one aggregate of one group, from that group's rows alone -/
+def groupValue (O : Oracles) (q : AggStmt) (k : AggKind) (g : List Env) : Option Value :=
+  (arguments O q k g).bind (aggregate k)
+
+/-- one cell of the row of group (`key`, `g`) -/
+def cell (O : Oracles) (q : AggStmt) (key : List Value) (g : List Env) (item : AggItem) : Option Value :=
+  match item.kind with
+  | .groupKey _ canon => (mappingGet (keyMapping q) canon).bind (key[·]?)
+  | k => (groupValue O q k g).bind (fun v => okOf (applyTransform O item.transform v))
+
+def row (O : Oracles) (q : AggStmt) (key : List Value) (g : List Env) : Option (List Value) :=
+  collect (q.items.map (cell O q key g))
+
+/-- HAVING on one group: its own key and its own aggregates -/
+def accept (O : Oracles) (q : AggStmt) (key : List Value) (g : List Env) : Option Bool :=
+  match q.having with
+  | none => some true
+  | some h =>
+    match collect (q.havingAggs.map (fun (id, k) => (groupValue O q k g).map (fun v => (id, v)))) with
+    | none => none
+    | some gvals => (okOf (eval O { groupKeys := keyBindings q key, groupValues := gvals } h)).map (·.truthy)
+
+/-- DISTINCT: the first occurrence of every row -/
+def firstRows : List (List Value) → List (List Value)
+  | [] => []
+  | r :: rs => r :: (firstRows rs).filter (fun x => !Value.beqList r x)
+
+/-- rows of the table over explicitly given groups -/
+def tableOfGroups (O : Oracles) (q : AggStmt) (gs : List (List Value × List Env)) : Option (List (List Value)) :=
+  match collect (gs.map (fun (k, g) => (row O q k g).bind (fun r => (accept O q k g).map (fun a => (r, a))))) with
+  | none => none
+  | some all =>
+    let kept := (all.filter (·.2)).map (·.1)
+    let kept := if q.distinct then firstRows kept else kept
+    some (match q.limit with
+      | some n => kept.take n
+      | none => kept)
+
+/-- every key reference of the select list and of HAVING names a GROUP BY part (otherwise the engine rejects the
+statement with "not used in group by clause" as soon as a row arrives; HAVING can only refer to plain key columns) -/
+def keyRefsValid (q : AggStmt) : Bool :=
+  let valid (canon : String) : Bool := match q.groupBy with
+    | some parts => parts.any (·.2 == canon)
+    | none => false
+  q.items.all (fun it => match it.kind with
+    | .groupKey _ canon => valid canon
+    | _ => true) &&
+  q.havingVisit.all (fun r => match r with
+    | .key canon => valid canon
+    | _ => true)
+
+/-- the result table for the rows (environments) presented to the statement, in arrival order -/
+def table (O : Oracles) (q : AggStmt) (envs : List Env) : Option (List (List Value)) :=
+  match keyedRows O q envs with
+  | none => none
+  | some rows =>
+    if !keyRefsValid q || !(rows.all (fun r => r.1.all simpleValue)) then none
+    else tableOfGroups O q (groups rows)
+
+/-! ### known deviation classes of the implementation (known_findings.json) -/
+
+/-- does the engine create a `group_values` entry for this aggregate in a group with argument values `vs`?
+(COUNT(c), COUNT(DISTINCT c), PERCENTILE, BOOL_AND/OR and STRING_AGG do so only for a non-NULL argument) -/
+def createsEntry (k : AggKind) (vs : List Value) : Bool :=
+  match k with
+  | .groupKey _ _ => false
+  | .count none _ => !vs.isEmpty
+  | .count (some _) _ | .percentile _ _ | .boolAnd _ | .boolOr _ | .stringAgg _ _ => !(nonNull vs).isEmpty
+  | _ => !vs.isEmpty
+
+def slotKinds (q : AggStmt) : List AggKind := q.items.map (·.kind) ++ q.havingAggs.map (·.2)
+
+/-- D10: the result table is enumerated from `group_values`, so a group in which no aggregate created an entry
+is not shown at all -/
+def groupVisible (O : Oracles) (q : AggStmt) (g : List Env) : Bool :=
+  (slotKinds q).any (fun k => match arguments O q k g with
+    | some vs => createsEntry k vs
+    | none => false)
+
+/-- D15: ARRAY_AGG whose first value in a group is NULL is refused ("cannot create array of null type") -/
+def firstNull (k : AggKind) (vs : List Value) : Bool :=
+  match k, vs with
+  | .arrayAgg _, v :: _ => v.isNull
+  | _, _ => false
+
+def arrayAggFirstNull (O : Oracles) (q : AggStmt) (g : List Env) : Bool :=
+  (slotKinds q).any (fun k => match arguments O q k g with
+    | some vs => firstNull k vs
+    | none => false)
+
+def deviationClass (O : Oracles) (q : AggStmt) (envs : List Env) : String :=
+  match keyedRows O q envs with
+  | none => ""
+  | some rows =>
+    let gs := groups rows
+    if gs.any (fun (_, g) => arrayAggFirstNull O q g) then "D15:array_agg-first-value-null"
+    else if gs.any (fun (_, g) => !groupVisible O q g) then "D10:group-without-value-entry"
+    else ""
+
+/-! ### a batch run -/
+
+/-- the environments the admitted lines of a run without join present to the statement -/
+def envsOf (t : TableInfo) (lines : List FileLine) : List Env :=
+  (lines.filter (fun fl => anyResult fl.line.row)).map
+    (fun fl => envOfInsertions (columnsMapping t fl.line.row fl.line.text))
+
 /-- spec answer for a batch run of an aggregate statement, with the name of a known deviation class of the
 implementation if the case falls into one (`""` otherwise) -/
-def batch (_O : Oracles) (_qy : Query) (_q : AggStmt) (_joined : List FileLine) (_files : List (List FileLine)) :
-    Option (RunOut × String) := none
+def batch (O : Oracles) (qy : Query) (q : AggStmt) (_joined : List FileLine) (files : List (List FileLine)) :
+    Option (RunOut × String) :=
+  let lines := files.flatten
+  if qy.join.isSome || lines.any (fun fl => !fl.readable) then none
+  else
+    let envs := envsOf qy.table lines
+    match table O q envs with
+    | none => none
+    | some rows =>
+      some ({ printed := printResult { columns := q.items.map (·.name), rows := rows } true, totalLines := lines.length },
+        deviationClass O q envs)
 
 end Sqlgrep.Spec.Agg
